@@ -584,12 +584,20 @@ func runFree(fc freeCase) (string, string) {
 		curLast, open := -1, 0
 		seenStart := map[int]bool{}
 		expectNextStart := 0
+		nprefs := 0
 		for _, e := range snapshot {
 			switch e.kind {
 			case 'p':
 				if open != 0 && code == 0 {
 					return "batch-overlap", fmt.Sprintf("pref(%d) called while %d jobs of the previous batch had not ended", e.last, open)
 				}
+				if expectNextStart >= fc.Size {
+					return "pref-for-empty-batch", fmt.Sprintf("pref(last=%d) called again after the last batch (size=%d limit=%d): a batch without jobs is prepared", e.last, fc.Size, fc.Workers)
+				}
+				if e.last <= curLast {
+					return "pref-last-not-increasing", fmt.Sprintf("pref(last=%d) after pref(last=%d)", e.last, curLast)
+				}
+				nprefs++
 				wantLast := expectNextStart + fc.Workers - 1
 				if wantLast > fc.Size-1 {
 					wantLast = fc.Size - 1
@@ -615,6 +623,9 @@ func runFree(fc freeCase) (string, string) {
 				open--
 			}
 		}
+		if code == 0 && nprefs != (fc.Size+fc.Workers-1)/fc.Workers {
+			return "pref-count", fmt.Sprintf("%d pref calls for size=%d limit=%d, want %d", nprefs, fc.Size, fc.Workers, (fc.Size+fc.Workers-1)/fc.Workers)
+		}
 		if code == 0 && len(seenStart) != fc.Size {
 			return "success-without-running-every-job", fmt.Sprintf("%d of %d indices", len(seenStart), fc.Size)
 		}
@@ -626,7 +637,7 @@ func main() {
 	o := vh.ParseFlags()
 	res := vh.NewResult("(1) forced schedules on the real util.BaseJobWorker / ErrCallbackJobWorker: random sequences of NewJob / job end (ok or error) / Done / Cancel / Wait with parked jobs, semaphore sizes 1..4; every call's result and the moment Wait returns are compared with the Coq model; (2) free-running RunJobWorker / RunErrCallbackJobWorker / BatchWork, sizes 1..60, worker sizes / limits 1..12, failing jobs, failing pref, cancellation; non-trivial = schedule with at least one accepted job and a Wait, or free case with more jobs than workers or a failure")
 	r := vh.NewRand(o.Seed)
-	cases := &vh.Cases{Import: "From MV Require Import C33.Model.", Type: "case", CheckFn: "check", Shard: 400}
+	cases := &vh.Cases{Import: "From MV Require Import C33.Model.", Type: "xcase", CheckFn: "check_x", Shard: 400}
 	var rmu sync.Mutex
 	knownReported := 0
 
@@ -680,7 +691,7 @@ func main() {
 		for i, ob := range s.out.obs {
 			ot[i] = vh.Tuple(fmt.Sprintf("%d", ob.R1), fmt.Sprintf("%d", ob.R2), fmt.Sprintf("%d", ob.W))
 		}
-		cases.Add(vh.Tuple(vh.Nat(s.size), vh.Bool(s.errcb), opsTerm(s.ops), "["+join(ot)+"]%nat", natList(s.out.inv), natList(s.out.errfs)),
+		cases.Add("XSched "+vh.Tuple(vh.Nat(s.size), vh.Bool(s.errcb), opsTerm(s.ops), "["+join(ot)+"]%nat", natList(s.out.inv), natList(s.out.errfs)),
 			map[string]any{"input": rp, "obs": s.out.obs, "inv": s.out.inv, "errfs": s.out.errfs})
 		if bucket == "schedule" {
 			res.Sample(map[string]any{"size": s.size, "errcb": s.errcb, "ops": s.ops, "obs": s.out.obs})
@@ -794,6 +805,81 @@ func main() {
 		if class != "" {
 			fcc := fc
 			res.Fail(class, fmt.Sprintf("%s(size=%d, workers/limit=%d, fail=%v, pref_fail=%d, cancel_after=%d): %s", fc.Fn, fc.Size, fc.Workers, fc.FailAt, fc.PrefFailAt, fc.CancelAfter, desc), replay{Kind: "free", Free: &fcc})
+		}
+	}
+
+	// exhaustive grid: the FULL trace of BatchWork (every pref call with its argument, every job with its
+	// (i, last)) for all (size, limit), exact multiples and limit 1 included, against the model's batches
+	grid := o.Pick(14, 40)
+	for size := 0; size <= grid; size++ {
+		for limit := 1; limit <= grid; limit++ {
+			var tmu sync.Mutex
+			type tev struct{ k, a, b int }
+			var tr []tev
+			err := util.BatchWork(context.Background(), int64(size), int64(limit),
+				func(_ context.Context, last uint64) error {
+					tmu.Lock()
+					tr = append(tr, tev{0, int(last), 0})
+					tmu.Unlock()
+					return nil
+				},
+				func(_ context.Context, i, last uint64) error {
+					tmu.Lock()
+					tr = append(tr, tev{1, int(i), int(last)})
+					tmu.Unlock()
+					return nil
+				})
+			// sequential view: sort the job events between two pref calls by index
+			for lo := 0; lo < len(tr); {
+				hi := lo + 1
+				for hi < len(tr) && tr[hi].k == 1 {
+					hi++
+				}
+				sort.Slice(tr[lo+1:hi], func(x, y int) bool { return tr[lo+1+x].a < tr[lo+1+y].a })
+				lo = hi
+			}
+			// the property's own reading
+			want := 0
+			if size >= 1 {
+				want = (size + limit - 1) / limit
+			}
+			np, nj, bad := 0, 0, ""
+			lastPref, jobsSincePref := -1, 0
+			for k, e := range tr {
+				if e.k == 0 {
+					if k > 0 && jobsSincePref == 0 {
+						bad = fmt.Sprintf("pref(%d) prepared a batch without jobs", lastPref)
+					}
+					if e.a <= lastPref {
+						bad = fmt.Sprintf("pref(last=%d) after pref(last=%d): not once per batch", e.a, lastPref)
+					}
+					lastPref, jobsSincePref = e.a, 0
+					np++
+				} else {
+					if e.b != lastPref {
+						bad = fmt.Sprintf("job %d ran with last=%d under pref(%d)", e.a, e.b, lastPref)
+					}
+					jobsSincePref++
+					nj++
+				}
+			}
+			if len(tr) > 0 && jobsSincePref == 0 {
+				bad = fmt.Sprintf("the last pref(%d) prepared a batch without jobs", lastPref)
+			}
+			if err == nil && (np != want || nj != size) {
+				bad = fmt.Sprintf("%d pref calls and %d jobs, want %d and %d", np, nj, want, size)
+			}
+			res.Count(fmt.Sprintf("trace/%d/%d", size, limit), size > limit)
+			res.Dist("trace_grid")
+			if bad != "" {
+				res.Fail("batch-trace", fmt.Sprintf("BatchWork(size=%d, limit=%d): %s", size, limit, bad), replay{Kind: "free", Free: &freeCase{Fn: "batch", Size: size, Workers: limit, PrefFailAt: -1, CancelAfter: -1}})
+			}
+			ts := make([]string, len(tr))
+			for k, e := range tr {
+				ts[k] = vh.Tuple(fmt.Sprintf("%d", e.k), fmt.Sprintf("%d", e.a), fmt.Sprintf("%d", e.b))
+			}
+			cases.Add(fmt.Sprintf("XTrace %d %d %s [%s]%%nat", size, limit, vh.Bool(err == nil), join(ts)),
+				map[string]any{"trace": map[string]any{"size": size, "limit": limit, "ok": err == nil, "events": len(tr)}})
 		}
 	}
 
